@@ -41,8 +41,12 @@ func partitionerRun(c Case) ([]string, []string) {
 			p = &pp
 			go p.Start()
 			outs = append(outs, "ok")
-		case len(w) == 4 && w[1] == "msg" && p != nil:
-			m := &replication.WalMessage{Pr: &parselogical.ParseResult{Operation: "INSERT", Relation: unhexs(w[2]), Transaction: unhexs(w[3])}}
+		case (len(w) == 4 || len(w) == 5) && w[1] == "msg" && p != nil:
+			op := "INSERT"
+			if len(w) == 5 {
+				op = w[4]
+			}
+			m := &replication.WalMessage{Pr: &parselogical.ParseResult{Operation: op, Relation: unhexs(w[2]), Transaction: unhexs(w[3])}}
 			select {
 			case in <- m:
 			case <-time.After(5 * time.Second):
@@ -84,8 +88,23 @@ func partitionerGen(r *Rng, tier string) Case {
 			txns = append(txns, Pick(r, []string{"", "7", "abc", "ü", "00042"}))
 		}
 	}
-	for i := r.Range(3, 30); i > 0; i-- {
-		lines = append(lines, fmt.Sprintf("partitioner msg %s %s", hexs(Pick(r, relPool)), hexs(Pick(r, txns))))
+	if r.Chance(50) {
+		for i := r.Range(3, 30); i > 0; i-- {
+			lines = append(lines, fmt.Sprintf("partitioner msg %s %s", hexs(Pick(r, relPool)), hexs(Pick(r, txns))))
+		}
+		return Case{lines}
+	}
+	// framed traffic as the client forwards it: BEGIN, rows, COMMIT - and the frames a reconnect leaves behind
+	// (a BEGIN not preceded by the COMMIT of the open transaction, a transaction delivered again)
+	for i := r.Range(2, 8); i > 0; i-- {
+		t := hexs(Pick(r, txns))
+		lines = append(lines, fmt.Sprintf("partitioner msg %s %s BEGIN", hexs(""), t))
+		for j := r.Range(0, 4); j > 0; j-- {
+			lines = append(lines, fmt.Sprintf("partitioner msg %s %s %s", hexs(Pick(r, relPool)), t, Pick(r, []string{"INSERT", "UPDATE", "DELETE"})))
+		}
+		if r.Chance(65) {
+			lines = append(lines, fmt.Sprintf("partitioner msg %s %s COMMIT", hexs(""), t))
+		}
 	}
 	return Case{lines}
 }
